@@ -398,6 +398,90 @@ def real_values_and_handlers(res, T, t, cls):
     MODULE_CLASSES[t.mtype] = cls
 
 
+def sampler_record_controllers(res):
+    """The Sampler's controllers that live in its instrument record (vibrato type / attack / depth / rate, volume fade-out) are
+    controllers like the others: assigned by attribute or constructor keyword they read back, out of range they are refused."""
+    import rv.api as api
+    from rv.errors import ControllerValueError
+    table = [("vibrato_attack", 0, 255), ("vibrato_depth", 0, 255), ("vibrato_rate", 0, 63), ("volume_fadeout", 0, 8192)]
+    for name, lo, hi in table:
+        for v in sorted({lo, hi, (lo + hi) // 2, lo + 17, hi - 1}):
+            for path in ("setattr", "constructor", "constructor-with-others"):
+                res.case(("sampler-record", name, v, path))
+                res.count("sampler_record_assignments")
+                case = {"type": "Sampler", "controller": name, "value": v, "path": path}
+                try:
+                    if path == "setattr":
+                        m = api.m.Sampler()
+                        setattr(m, name, v)
+                    elif path == "constructor":
+                        m = api.m.Sampler(**{name: v})
+                    else:
+                        m = api.m.Sampler(volume=100, **{name: v}, polyphony=4, name="kit")
+                except Exception as e:
+                    res.violation(f"C09:inrange-raised:Sampler.{name}:{path}", f"Sampler.{name} = {v} (in range {lo}..{hi}) raised {e!r}", case)
+                    continue
+                if getattr(m, name) != v:
+                    res.violation(f"C09:readback:Sampler.{name}:{path}", f"Sampler.{name} = {v} ({path}) reads back {getattr(m, name)!r}", case)
+        for v in (lo - 1, hi + 1, hi + 1000):
+            for path in ("setattr", "constructor"):
+                res.count("sampler_record_out_of_range")
+                try:
+                    if path == "setattr":
+                        setattr(api.m.Sampler(), name, v)
+                    else:
+                        api.m.Sampler(**{name: v})
+                except ControllerValueError:
+                    continue
+                except Exception as e:
+                    res.violation(f"C09:wrong-error:Sampler.{name}", f"Sampler.{name} = {v} raised {e!r}", {"controller": name, "value": v})
+                    continue
+                res.violation(f"C09:accepted-out-of-range:Sampler.{name}:{path}", f"Sampler.{name} = {v} (range {lo}..{hi}) is accepted", {"controller": name, "value": v, "path": path})
+    VT = api.m.Sampler.VibratoType
+    for member in VT:
+        for path in ("setattr", "constructor", "by-name"):
+            m = api.m.Sampler(vibrato_type=member) if path == "constructor" else api.m.Sampler()
+            if path == "setattr":
+                m.vibrato_type = member
+            elif path == "by-name":
+                m.vibrato_type = member.name
+            res.count("sampler_record_assignments")
+            if m.vibrato_type != member:
+                res.violation(f"C09:readback:Sampler.vibrato_type:{path}", f"Sampler.vibrato_type = {member!r} ({path}) reads back {m.vibrato_type!r}", {"path": path})
+
+
+def foreign_enum_members(res, T, t, cls):
+    """An enum controller handed a member of ANOTHER enum (integer-valued, e.g. the waveform enum of a different module type, or
+    an application's own IntEnum): it is a number like any int subclass - the member with that NUMBER is meant, whatever the
+    other enum calls it; a number that is not in the enumeration is refused."""
+    import enum as _enum
+    for sc in t.controllers:
+        if sc.kind != "enum" or not sc.attached:
+            continue
+        target = getattr(cls, sc.enum)
+        members = list(target)
+        if len(members) < 2:
+            continue
+        # an application enum that uses the target's NAMES in another order (so name and number disagree)
+        rotated = _enum.IntEnum("Rotated", {m_.name: members[(k + 1) % len(members)].value for k, m_ in enumerate(members)})
+        for other in rotated:
+            for path in ("setattr", "constructor"):
+                res.case((T, sc.name, "foreign-enum", other.name, path))
+                res.count("foreign_enum_member_assignments")
+                case = {"type": T, "controller": sc.name, "given": f"{other.name}={int(other)}", "path": path}
+                try:
+                    m = cls(**{sc.name: other}) if path == "constructor" else cls()
+                    if path == "setattr":
+                        setattr(m, sc.name, other)
+                except Exception:
+                    res.count("foreign_enum_member_refused")
+                    continue
+                got = getattr(m, sc.name)
+                if _val(got) != int(other):
+                    res.violation(f"C09:readback:{T}.{sc.name}:foreign-enum", f"{T}.{sc.name} = <{other.name}: {int(other)}> of another IntEnum reads back {got!r}; the member numbered {int(other)} "
+                                                                            f"is {target(int(other))!r}", case)
+
+
 def embedded_assignments(res, T, t, cls):
     """A module that sits in the project of a constructed MetaModule which exposes one of its controllers: assigning that very
     controller on the embedded module (in range) reads back exactly - whatever travels up and down the mapping."""
@@ -510,6 +594,9 @@ def run_shard(spec_, res):
         int_subclass_values(res, T, spec.load()[T], MODULE_CLASSES[spec.load()[T].mtype])
         embedded_assignments(res, T, spec.load()[T], MODULE_CLASSES[spec.load()[T].mtype])
         real_values_and_handlers(res, T, spec.load()[T], MODULE_CLASSES[spec.load()[T].mtype])
+        foreign_enum_members(res, T, spec.load()[T], MODULE_CLASSES[spec.load()[T].mtype])
+        if T == "Sampler":
+            sampler_record_controllers(res)
         res.count("types_visited")
     # the labelled aliases of a MetaModule's exposed controllers are assignment paths to controllers as well
     from .. import aliasprobe
